@@ -29,10 +29,13 @@ def main():
             mod = importlib.import_module(f"mc.props.{pid.lower()}")
         except ImportError:
             mod = None
-        if mod is None or pid not in META:
+        if mod is None or not (pid in META or hasattr(mod, "TECHNIQUE")):
             na.append({"property_id": pid, "reason": NOT_YET})
             continue
-        tech, text, note = META[pid]
+        if hasattr(mod, "TECHNIQUE"):
+            tech, text, note = mod.TECHNIQUE, mod.LEVEL_TEXT, mod.LEVEL_NOTE
+        else:
+            tech, text, note = META[pid]
         checks.append(
             {
                 "property_id": pid,
